@@ -232,7 +232,7 @@ PROPS = {
         "title": "empty, one-observation and constant samples follow the documented contract",
         "mc": [MC_W1, MC_C1, MC_SEQ, MC_MERGE],
         "replay": [GEN_INGEST, gen_q("small", "E0"), gen_mm("hist", depth=("3", "3")), gen_pair("Weighted", "seq", "E0:W0,E5:W2,E10:W0,E10:W1,E0:W3", maxlen=("4", "5")), gen_pair("Covariance", "seq", "E0:E0,E3:E5,E10:E10", maxlen=("4", "5")), gen_seq(ALLM, E05 + ",E10"), gen_hist(ALLM, "E0")],
-        "direct": [long_job("Mean,Variance,Skewness,Kurtosis,Moments4,M6,M10", E05 + ",E10", max_n="10000")],
+        "direct": [{"cmd": "direct", "family": "rayontiny", "args": {}}, long_job("Mean,Variance,Skewness,Kurtosis,Moments4,M6,M10", E05 + ",E10", max_n="10000")],
         "rule": "every accessor of every type at n = 0..4 and on every constant sequence in the enumerated set, sentinel class "
                 "or exact value required",
         "bounds": {"quick": "L <= 5", "thorough": "L <= 7"},
@@ -257,7 +257,7 @@ PROPS = {
         "technique": 'stuttering Checkpoint action + two-run bitwise replay + serde twin in validated traces',
         "title": "a serde round trip at any point is invisible",
         "mc": [MC_MERGE],
-        "replay": [gen_h("hist", 2, depth=("3", "4")), gen_h("hist", 1), gen_q("big", "E0,E5", maxlen=("7", "8")), gen_q("small", "E0"), gen_mm("hist", depth=("3", "4")), gen_pair("Weighted", "hist", "E0:W0,E5:W2", depth=("3", "4")), gen_pair("Covariance", "hist", "E0:E0,E3:E5", depth=("3", "4")), gen_hist(ALLM, "E0,E3,E5", depth=("5", "6"), slots=("{1}", "{1}")), gen_hist(ALLM, "E0,E5")],
+        "replay": [gen_h("hist", 2, depth=("3", "4")), gen_h("hist", 1), gen_q("big", "E0,E5,E16", maxlen=("7", "8")), gen_q("small", "E0,E16"), gen_mm("hist", depth=("3", "4")), gen_pair("Weighted", "hist", "E0:W0,E5:W2,E16:W4", depth=("4", "4")), gen_pair("Covariance", "hist", "E0:E0,E3:E5,E16:E16", depth=("3", "4")), gen_hist(ALLM, "E0,E3,E5,E16", depth=("5", "6"), slots=("{1}", "{1}")), gen_hist(ALLM, "E0,E5,E16")],
         "trace": [TR_Q, TR_MM],
         "direct": [{"cmd": "direct", "family": "histserde", "args": {"reps": ("20", "200")}}],
         "rule": "every history with checkpoints at every position; two real executions (with / without the JSON round trip) "
@@ -424,7 +424,7 @@ PROPS = {
                MC_MERGE],
         "replay": [{"module": "Gen_Moments", "cfg": "Gen_Moments_rayon.cfg",
                     "overrides": {"MaxLen": ("4", "5"), "Slots": ("{1, 2, 3, 4, 5, 6}", "{1, 2, 3, 4, 5, 6, 7, 8}")},
-                    "family": "moments", "types": ALLM, "embeddings": "E0,E3,E5"}],
+                    "family": "moments", "types": ALLM, "embeddings": "E0,E3,E5,E10"}],
         "trace": [{"module": "Trace_Rayon", "cfg": "Trace_Rayon.cfg", "family": "rayon", "args": {"reps": ("2", "8")}, "timeout": 3600}],
         "direct": [{"cmd": "direct", "family": "rayon", "args": {"max_n": ("10000", "1000000"), "reps": ("2", "4")}},
                    long_job("Variance,Skewness,Kurtosis,Moments4", "E0,E3", max_n="1000")],
